@@ -360,15 +360,18 @@ func TestVerifC24(t *testing.T) {
 		}
 
 		// --- grouping: all 8 option combinations
-		var loaded data.Snapshots
-		for _, id := range repo.order {
-			sn, err := data.LoadSnapshot(ctx, repo, id)
-			if err != nil {
-				t.Fatal(err)
-			}
-			loaded = append(loaded, sn)
-		}
 		for mask := 0; mask < 8; mask++ {
+			// fresh snapshot objects for every call: GroupSnapshots sorts sn.Paths / sn.Tags in
+			// place, so objects that went through an earlier call are already normalised and
+			// would hide an order-sensitive grouping key (seeded change C24-1)
+			var loaded data.Snapshots
+			for _, id := range repo.order {
+				sn, err := data.LoadSnapshot(ctx, repo, id)
+				if err != nil {
+					t.Fatal(err)
+				}
+				loaded = append(loaded, sn)
+			}
 			opts := data.SnapshotGroupByOptions{Host: mask&1 != 0, Path: mask&2 != 0, Tag: mask&4 != 0}
 			rp := mkReplay(data.SnapshotFilter{}, fmt.Sprintf("group %+v", opts))
 			groups, grouped, err := data.GroupSnapshots(loaded, opts)
